@@ -17,7 +17,7 @@ TECHNIQUE = 'typestate over a statement CFG with exceptional edges (in-place sca
 LEVEL_TEXT = ('Crashes and hangs inside CyRK/LAPACK are out of reach. Decided: every exit of cf_radial_solver after the in-place non-dimensionalisation passes the restoring call (normal, explicit raise, and statements that may raise Python exceptions); '
               'no access to a stack array is outside its declared extent for any layer-kind combination; numeric accessors are dominated by `success`; `success` is set only on the error-free path; loops make progress; every assumption combination reaches a handler or a raise.')
 LEVEL_NOTE = ('Trusted: Cython-subset front-end incl. recorded array extents and noexcept qualifiers, CFG builder, interval rules. Restoration to "a few ulp" (x c then / c) is arithmetic, not decided. Memory leaks are outside the property.')
-EXPLANATION = 'R06.1 restore typestate; R06.2 fixed-size buffers; R06.3 success protocol; R06.4 totality of dispatch and loop progress; R06.5 LAPACK status read before reuse and before success; R06.6 array lengths checked before pointers are taken; R06.1/R06.2 additionally on the executed driver (inputs intact on every exit kind, every access within its extent); R06.7 no raw-pointer access indexed by a parameter runs before the guard that validates that parameter (check-after-use); R06.8 malformed layer structures (a layer without or with too few slices) end in a Python exception before that layer is integrated; R06.10 no loop index is narrower than its bound (no wrap-around, no endless loop); R06.11 no single-precision (C float) variable takes part in the arithmetic of the solver and of the scaling / unscaling of the inputs (restoration to a few ulp); R06.12 the Python entry point with many layers (around every constant its guards use) raises or stays inside its fixed-size arrays; R06.1 also with NaN scalar inputs (every isnan() test holding), both nondimensionalize settings; R06.9 the Python entry point hands every argument (raise_on_fail, verbose, the arrays, the per-layer flags) to the like-named parameter of the compiled driver.'
+EXPLANATION = 'R06.13 the arrays the solver scales in place are accepted as writable buffers only (no const memoryview whose address is cast); R06.1 restore typestate (also when only the first integration of a layer fails, with a bulk density of exactly zero under the cdivision directive of each source, and without reading heap memory nobody wrote); R06.2 fixed-size buffers; R06.3 success protocol; R06.4 totality of dispatch and loop progress; R06.5 LAPACK status read before reuse and before success; R06.6 array lengths checked before pointers are taken; R06.1/R06.2 additionally on the executed driver (inputs intact on every exit kind, every access within its extent); R06.7 no raw-pointer access indexed by a parameter runs before the guard that validates that parameter (check-after-use); R06.8 malformed layer structures (a layer without or with too few slices) end in a Python exception before that layer is integrated; R06.10 no loop index is narrower than its bound (no wrap-around, no endless loop); R06.11 no single-precision (C float) variable takes part in the arithmetic of the solver and of the scaling / unscaling of the inputs (restoration to a few ulp); R06.12 the Python entry point with many layers (around every constant its guards use) raises or stays inside its fixed-size arrays; R06.1 also with NaN scalar inputs (every isnan() test holding), both nondimensionalize settings; R06.9 the Python entry point hands every argument (raise_on_fail, verbose, the arrays, the per-layer flags) to the like-named parameter of the compiled driver.'
 
 PY_OBJECT_TYPES = ('str', 'tuple', 'list', 'dict', 'object', 'bytes')
 C_PURE = {'range', 'len', 'print', 'min', 'max', 'abs', 'int', 'float', 'isnan', 'isinf', 'isfinite', 'fabs', 'sqrt', 'cbrt', 'sin', 'cos', 'exp', 'log', 'sizeof', 'floor', 'ceil', 'pow', 'copysign', 'signbit', 'hypot', 'atan2', 'PyMem_Free', 'free',
@@ -115,6 +115,7 @@ def run(chk):
         solver_whole.assembled(chk, repo, None, None, None, rule_bounds='R06.2')
         solver_whole.inputs_intact(chk, repo, 'R06.1')
         solver_whole.nan_scalars(chk, repo, 'R06.1')
+        solver_whole.zero_scalars(chk, repo, 'R06.1')
         solver_whole.malformed_structures(chk, repo, 'R06.8')
         solver_whole.entry_point_arguments(chk, repo, 'R06.9')
         solver_whole.entry_point_layer_counts(chk, repo, 'R06.12')
@@ -644,14 +645,42 @@ def length_guards(chk, repo, ms):
         raise AnalysisError('radial_solver: call of cf_radial_solver vanished')
     c = calls[0]
     params = {a.arg for a in fw.args.args + fw.args.kwonlyargs}
-    handed = []
+    handed = []; casts = {}
+
+    def factors(x):
+        return factors(x.left) + factors(x.right) if isinstance(x, ast.BinOp) and isinstance(x.op, ast.Mult) else [x]
     for a in c.args:
-        # __addr__ * name[0]   (the rewritten form of &name[0])
-        if isinstance(a, ast.BinOp) and isinstance(a.left, ast.Name) and a.left.id == '__addr__' and isinstance(a.right, ast.Subscript) and isinstance(a.right.value, ast.Name):
-            if a.right.value.id in params:
-                handed.append(a.right.value.id)
+        # __addr__ * name[0]   (the rewritten form of &name[0]), possibly under casts: __cast__('double *') * __addr__ * name[0]
+        fs_ = factors(a)
+        cs_ = [f_ for f_ in fs_ if isinstance(f_, ast.Call) and isinstance(f_.func, ast.Name) and f_.func.id == '__cast__']
+        rest_ = [f_ for f_ in fs_ if f_ not in cs_]
+        if len(rest_) == 2 and isinstance(rest_[0], ast.Name) and rest_[0].id == '__addr__' and isinstance(rest_[1], ast.Subscript) and isinstance(rest_[1].value, ast.Name):
+            if rest_[1].value.id in params:
+                handed.append(rest_[1].value.id)
+                casts[rest_[1].value.id] = [ast.literal_eval(c_.args[0]) if c_.args and isinstance(c_.args[0], ast.Constant) else '?' for c_ in cs_]
     if len(handed) < 4:
         raise AnalysisError(f'radial_solver: expected at least 4 caller arrays handed to cf_radial_solver by pointer, found {handed}')
+    # R06.13 the driver scales these arrays in place (and restores them): the entry point must only accept buffers it may write.  A parameter declared `const` accepts
+    # read-only arrays (memory maps, arrays frozen by their owner); handing its address on under a cast that drops the `const` writes through it all the same.
+    info = ms.facts.funcs.get(('radial_solver', fw.lineno)) if ms.facts is not None else None
+    if info is None:
+        raise AnalysisError('radial_solver: the front-end recorded no parameter types for the entry point')
+    fc_info = next((v_ for (n_, _l), v_ in ms.facts.funcs.items() if n_ == 'cf_radial_solver'), None)
+    fc_node = ms.defs.get('cf_radial_solver')
+    drv_params = [a_.arg for a_ in fc_node.args.args] if isinstance(fc_node, ast.FunctionDef) else []
+    pos_of = {}
+    for i_, a in enumerate(c.args):
+        for nm in handed:
+            if any(isinstance(n_, ast.Name) and n_.id == nm for n_ in ast.walk(a)): pos_of[nm] = i_
+    for nm in handed:
+        ct = str(info['params'].get(nm, ''))
+        drv_ct = str((fc_info or {}).get('params', {}).get(drv_params[pos_of[nm]], '')) if nm in pos_of and pos_of[nm] < len(drv_params) else ''
+        if 'const' in drv_ct.split():
+            continue                 # the driver itself takes a pointer to const: the compiler rules out writes through it
+        ro = 'const' in ct.split()
+        chk.ob('R06.13', f'radial_solver (Python entry): `{nm}`, which the solver scales in place, is accepted as a writable buffer only', not ro,
+               f'declared `{ct}`: read-only arrays are accepted' + (f' and the address is handed on under the cast(s) {casts[nm]}' if casts.get(nm) else ''), ms.where(fw), key=f'R06.13|{nm}',
+               method='declared buffer type of the entry point parameter against the in-place writer it reaches')
     # the reference length: `<v> = <array>.size`; guards: assert X.size == v  /  if X.size != v: raise
     size_vars = {}
     for st in fw.body:
